@@ -110,40 +110,36 @@ func (c *Ctx) endScopeShape(fd *ast.FuncDecl) (bool, string) {
 	if incC != 1 || decL != 1 || loop.Init != nil || loop.Post != nil {
 		return false, "the pop counter and localCount must move together, once per iteration"
 	}
-	// guard: localCount > 0 && locals[localCount-1].depth > scope.depth
+	// guard: localCount > 0 && locals[localCount-1].depth > scope.depth (any equivalent spelling)
 	okPos, okDepth := false, false
-	var walk func(e ast.Expr)
-	walk = func(e ast.Expr) {
-		be, ok := stripParens(e).(*ast.BinaryExpr)
-		if !ok {
-			return
+	extra := 0
+	if loop.Cond != nil {
+		atoms, pure := c.nnf(loop.Cond, true, nil).conjuncts()
+		if !pure {
+			return false, "loop guard is not a conjunction"
 		}
-		switch be.Op {
-		case token.LAND:
-			walk(be.X)
-			walk(be.Y)
-		case token.GTR:
-			if c.fieldPath(be.X) == "<parser>.scope.localCount" {
-				if k, ok := c.intConst(be.Y); ok && k == 0 {
-					okPos = true
-				}
+		for _, a := range atoms {
+			if b, ok := c.boundOf(a); ok && c.fieldPath(b.X) == "<parser>.scope.localCount" && b.Lo != nil && *b.Lo == 1 && b.Hi == nil {
+				okPos = true
+				continue
 			}
-			if c.fieldPath(be.Y) == "<parser>.scope.depth" {
-				if sel, ok := stripParens(be.X).(*ast.SelectorExpr); ok && sel.Sel.Name == "depth" {
+			if rel, ok := c.relOf(a); ok && rel.Op == token.LSS && c.fieldPath(rel.L) == "<parser>.scope.depth" {
+				if sel, ok := stripParens(rel.R).(*ast.SelectorExpr); ok && sel.Sel.Name == "depth" {
 					if ix, ok := stripParens(sel.X).(*ast.IndexExpr); ok && c.fieldPath(ix.X) == "<parser>.scope.locals" {
 						if ib, ok := stripParens(ix.Index).(*ast.BinaryExpr); ok && ib.Op == token.SUB && c.fieldPath(ib.X) == "<parser>.scope.localCount" {
 							if k, ok := c.intConst(ib.Y); ok && k == 1 {
 								okDepth = true
+								continue
 							}
 						}
 					}
 				}
 			}
+			extra++
 		}
 	}
-	walk(loop.Cond)
-	if !okPos || !okDepth {
-		return false, "loop guard must be localCount > 0 && locals[localCount-1].depth > scope.depth"
+	if !okPos || !okDepth || extra > 0 {
+		return false, "loop guard must be equivalent to localCount > 0 && locals[localCount-1].depth > scope.depth"
 	}
 	// counter starts at zero and is not assigned elsewhere
 	zero := false
@@ -189,13 +185,14 @@ func (c *Ctx) addLocalShape(fd *ast.FuncDecl) (bool, string) {
 	if !ok {
 		return false, "does not start with the capacity check"
 	}
-	be, ok := stripParens(ifs.Cond).(*ast.BinaryExpr)
-	if !ok || c.fieldPath(be.X) != "<parser>.scope.localCount" || (be.Op != token.EQL && be.Op != token.GEQ) {
-		return false, "capacity check must compare scope.localCount with the table size"
+	var lim int64 = -1
+	if atoms, pure := c.nnf(ifs.Cond, true, nil).conjuncts(); pure && len(atoms) == 1 {
+		if b, ok := c.boundOf(atoms[0]); ok && c.fieldPath(b.X) == "<parser>.scope.localCount" && b.Lo != nil {
+			lim = *b.Lo // localCount == N or localCount >= N
+		}
 	}
-	lim, ok := c.intConst(be.Y)
-	if !ok {
-		return false, "capacity limit is not a constant"
+	if lim < 0 {
+		return false, "capacity check must compare scope.localCount with the table size (== or >=)"
 	}
 	// the locals array length
 	arrLen := int64(-1)
